@@ -85,9 +85,10 @@ def ediagJson (d : EDiag) : Json := Json.arr #[(d.controller : Json), (d.entity 
 /-- the link validator's findings before its final de-duplication: (code, what it points at).  Two findings
     are `Equal` in the implementation when code, message and range coincide, i.e. when they are about the
     same annotation (by position) or the same url parameter / function parameter (by name). -/
-def linkFindings (m : Method) : List (String × String) :=
-  let route := ((m.annots.filter (·.name = "Route")).getLast?.map (·.value)).getD ""
-  let urlParams := extractUrlParams route
+def linkFindings (ctrlRoute : String) (m : Method) : List (String × String) :=
+  let route := ((m.annots.filter (·.name = "Route")).head?.map (·.value)).getD ""
+  -- the controller's prefix first (`WithControllerRoute`, fix for the prefix half of C10-F2)
+  let urlParams := extractUrlParams ctrlRoute ++ extractUrlParams route
   let pathAttrs := (m.annots.filter (·.name = "Path")).zipIdx
   let funcParams := m.params.map (·.name)
   -- 1. route
@@ -115,15 +116,18 @@ def linkFindings (m : Method) : List (String × String) :=
       let seenParams' := if known && !seenParams.contains a.value then seenParams ++ [a.value] else seenParams
       let dB := if seenVals.contains a.value then [("linker-duplicate-path-param", s!"path#{i}")] else []
       let seenVals' := if seenVals.contains a.value then seenVals else seenVals ++ [a.value]
+      let unaliased : List (String × String) × List String :=
+        ((if seenAliases.contains a.value && !seenVals.contains a.value then [("linker-duplicate-path-alias-ref", s!"path#{i}")] else []),
+         if seenAliases.contains a.value then seenAliases else seenAliases ++ [a.value])
       let (dC, seenAliases') :=
         match aliasOf a with
         | .bad => ([("annotation-properties-invalid-value-for-key", s!"path#{i}")], seenAliases)
         | .ok al =>
-          if al.isEmpty then ([], seenAliases) else
+          if al.isEmpty then unaliased else
           ((if seenAliases.contains al then [("linker-duplicate-path-alias-ref", s!"path#{i}")] else []) ++
            (if urlParams.contains al then [] else [("linker-path-annotation-invalid-reference", s!"path#{i}:alias")]),
            if seenAliases.contains al then seenAliases else seenAliases ++ [al])
-        | .none => ([], seenAliases)
+        | .none => unaliased
       let (r, sp) := goPath rest seenParams' seenVals' seenAliases'
       (dA ++ dB ++ dC ++ r, sp)
   let (d2, seen2) := goPath pathAttrs [] [] []
@@ -138,7 +142,10 @@ def linkFindings (m : Method) : List (String × String) :=
 
 /-- `AnnotationLinkValidator.Validate` ends by dropping findings that are `Equal` to an earlier one; the proved
     model (`Validate.linkValidate`) keeps them (its theorems are about emptiness, which de-duplication preserves) -/
-def linkValidateDedup (m : Method) : List Diag := (linkFindings m).eraseDups.map fun (c, _) => err c
+def linkValidateDedup (ctrlRoute : String) (m : Method) : List Diag := (linkFindings ctrlRoute m).eraseDups.map fun (c, _) => err c
+
+/-- the controller's own `@Route` value as the receiver validator reads it (`Annotations.GetFirst`) -/
+def ctrlRouteOf (annots : List Annot) : String := ((annots.find? (·.name = "Route")).map (·.value)).getD ""
 
 /-- is the method picked up as a route at all: it needs @Method and @Route (the visitor ignores others) -/
 def isRoute (m : Method) : Bool :=
@@ -161,7 +168,7 @@ def modelDiags (p : PProject) : Option (List EDiag) :=
         acc2.bind fun ds2 =>
           (validateReceiver p.env (errorEmbedders p) p.enforce p.defaultSecurity.isSome c.annots pm.m).map fun r =>
             -- validateReceiver = … ++ linkValidate m: swap the raw link findings for the de-duplicated ones
-            let r' := r.take (r.length - (linkValidate pm.m).length) ++ linkValidateDedup pm.m
+            let r' := r.take (r.length - (linkValidate (ctrlRouteOf c.annots) pm.m).length) ++ linkValidateDedup (ctrlRouteOf c.annots) pm.m
             ds2 ++ r'.map fun d => (⟨c.name, pm.m.name, d.code, d.severity⟩ : EDiag)) (some [])
       ms.map fun m => ds ++ self ++ m) (some [])
 
@@ -194,7 +201,8 @@ def bindingNames : List String := ["Path", "Query", "Header", "FormField", "Body
 
 /-- annotations and signature are mutually consistent (the property's wording, clause by clause) -/
 def wellLinked (env : TypeEnv) (ctrlRoute : String) (m : Method) : List String :=
-  let route := ((m.annots.filter (·.name = "Route")).getLast?.map (·.value)).getD ""
+  -- the route is reduced, documented and served under its FIRST @Route (`GetFirstValueOrEmpty`)
+  let route := ((m.annots.filter (·.name = "Route")).head?.map (·.value)).getD ""
   let urlParams := extractUrlParams (ctrlRoute ++ route)
   let paths := m.annots.filter (·.name = "Path")
   let pathNames := paths.map fun a => match aliasOf a with | .ok v => if v.isEmpty then a.value else v | _ => a.value
@@ -222,17 +230,15 @@ def wellLinked (env : TypeEnv) (ctrlRoute : String) (m : Method) : List String :
 /-- signatures of the recorded C10 findings on a method that the validators judge differently from
     `wellLinked` -/
 def c10FindingOf (ctrlRoute : String) (m : Method) (accepted : Bool) (wl : List String) : String :=
-  let prefixHasParam := !(extractUrlParams ctrlRoute).isEmpty
-  let route := ((m.annots.filter (·.name = "Route")).getLast?.map (·.value)).getD ""
-  let urlParams := extractUrlParams route
+  let route := ((m.annots.filter (·.name = "Route")).head?.map (·.value)).getD ""
+  let urlParams := extractUrlParams ctrlRoute ++ extractUrlParams route
   let paths := m.annots.filter (·.name = "Path")
   let unaliasedOutside := paths.any fun a => (match aliasOf a with | .none => true | .ok v => v.isEmpty | .bad => false) && !urlParams.contains a.value
   if accepted && !wl.isEmpty then
-    -- C10-F2: `{x}` of the controller prefix is never linked; a @Path without alias whose name is not in the route is never reported
-    if wl = ["url-path-bijection"] && (prefixHasParam || unaliasedOutside) then "C10-F2" else ""
-  else if !accepted && wl.isEmpty then
-    -- C10-F2 (other direction): a correct binding of a prefix parameter is rejected ("Unknown @Path parameter alias")
-    if prefixHasParam then "C10-F2" else ""
+    -- C10-F2 (what is left of it): a @Path without alias whose name is no `{name}` of the full template is never
+    -- reported (the check is pinned away by test/diagnostics).  The prefix half - `{x}` of the controller's own
+    -- @Route never linked - is repaired in /repo and no longer excused here.
+    if wl = ["url-path-bijection"] && unaliasedOutside then "C10-F2" else ""
   else ""
 
 def checkC10 (p : PProject) (impl : Json) : PropOut := Id.run do
@@ -254,7 +260,7 @@ def checkC10 (p : PProject) (impl : Json) : PropOut := Id.run do
   if valErr = "" && jstrD impl "graphErr" = "" && jstrD impl "setupErr" = "" && jstrD impl "configErr" = "" then
     for c in p.controllers do
       if c.noEmbed then continue
-      let ctrlRoute := ((c.annots.filter (·.name = "Route")).getLast?.map (·.value)).getD ""
+      let ctrlRoute := ctrlRouteOf c.annots
       for pm in c.methods do
         if !isRoute pm.m then continue
         let wl := wellLinked p.env ctrlRoute pm.m
@@ -265,7 +271,7 @@ def checkC10 (p : PProject) (impl : Json) : PropOut := Id.run do
           -- an alias that is not a string is a malformed annotation, reported by the link validator as an error
           pm.m.annots.any (fun a => a.name = "Path" && aliasOf a = .bad)
         -- the driver's de-duplicated link findings and the proved model agree on emptiness
-        if (linkFindings pm.m).isEmpty != (linkValidate pm.m).isEmpty then mfails := mfails ++ [s!"link-findings-vs-model:{c.name}.{pm.m.name}"]
+        if (linkFindings (ctrlRouteOf c.annots) pm.m).isEmpty != (linkValidate (ctrlRouteOf c.annots) pm.m).isEmpty then mfails := mfails ++ [s!"link-findings-vs-model:{c.name}.{pm.m.name}"]
         if wl.isEmpty && rejected && !annotErr then
           let fid := c10FindingOf ctrlRoute pm.m false wl
           fails := fails ++ [(if fid.isEmpty then "" else fid ++ ":") ++ s!"well-linked-route-rejected:{c.name}.{pm.m.name}"]
@@ -275,7 +281,7 @@ def checkC10 (p : PProject) (impl : Json) : PropOut := Id.run do
   else if valErr ≠ "" then
     -- the validators gave up with a hard error instead of diagnostics
     let allWl := p.controllers.all fun c => c.noEmbed ||
-      (let ctrlRoute := ((c.annots.filter (·.name = "Route")).getLast?.map (·.value)).getD ""
+      (let ctrlRoute := ctrlRouteOf c.annots
        c.methods.all fun pm => !isRoute pm.m || (wellLinked p.env ctrlRoute pm.m).isEmpty)
     -- C10-F1: a parameter named like the value of an earlier annotation of another kind
     let shadowed := p.controllers.any fun c => c.methods.any fun pm => pm.m.params.any fun q =>
@@ -348,8 +354,14 @@ def checkC18 (p : PProject) (impl : Json) : PropOut := Id.run do
         fails := fails ++ [s!"properties-range-text:{ctrl}.{ent}:'{covered}'"]
     if code = "linker-route-missing-path-reference" || code = "linker-duplicate-url-parameter" then
       nValue := nValue + 1
-      if !(covered.startsWith "{" && covered.endsWith "}" && annots.any fun a => a.name = "Route" && (a.value.splitOn covered).length > 1) then
-        fails := fails ++ [s!"url-param-range-text:{ctrl}.{ent}:'{covered}'"]
+      -- the message names the parameter: `URL parameter 'x' …` / `Duplicate URL parameter 'x'`
+      let pname := ((jstrD d "_message").splitOn "'").getD 1 ""
+      let ownRoute := ((annots.filter (·.name = "Route")).head?.map (·.value)).getD ""
+      -- a `{x}` of the method's own @Route is covered exactly; a `{x}` of the controller's prefix (linked since fix
+      -- 6007590) has no text inside the method's comment: the diagnostic covers the method's whole @Route value
+      let expected := if (ownRoute.splitOn ("{" ++ pname ++ "}")).length > 1 then "{" ++ pname ++ "}" else ownRoute
+      if covered ≠ expected then
+        fails := fails ++ [s!"url-param-range-text:{ctrl}.{ent}:'{covered}' expected '{expected}'"]
   -- … nor in the command's error text (C18-F1: pinned by test/diagnostics: an entity is printed once per error it carries)
   let dup := (jnat impl "dupEntityBlocks").toOption.getD 0
   if dup > 0 then fails := fails ++ [s!"C18-F1:entity-block-repeated-in-error-text:{dup}"]
